@@ -83,11 +83,16 @@ func c11Exec(cfg c11Cfg, hist []c11Op) *c11Result {
 	}
 	for step, op := range hist {
 		id := ids[op.Task]
+		c11FaultedWrite = ""
 		if op.Fault > 0 {
 			n := 0
 			env.fe.Hook = func(o, k string) error {
 				n++
 				if n == op.Fault {
+					// (the state update is a read-modify-write of the task's own record: either half may be the one that fails)
+					if i := strings.Index(k, "/task_info/"); i >= 0 {
+						c11FaultedWrite = k[i+len("/task_info/"):]
+					}
 					return errC11Fault
 				}
 				return nil
@@ -297,6 +302,10 @@ func (e *vEnv) storeDumpKeys() string {
 	return strings.Join(ks, ";")
 }
 
+// c11FaultedWrite: the task whose task-info record write was the store call that the current operation's injected
+// failure hit ("" if it hit something else, or nothing).
+var c11FaultedWrite string
+
 func c11Invariants(env *vEnv, cfg c11Cfg, ref map[string]string, step int, op c11Op) string {
 	where := fmt.Sprintf("step %d %v", step, op)
 	// persisted
@@ -359,6 +368,20 @@ func c11Invariants(env *vEnv, cfg c11Cfg, ref map[string]string, step int, op c1
 	}
 	want := f(ref)
 	if f(persisted) != want || f(mem) != want || f(apiStates) != want || f(gauge) != want {
+		// One shape is reported under its own signature (recorded finding): during a reload the service pauses a task
+		// itself (auto start disabled, or its start failed) and the store rejects exactly the write that records
+		// that pause - the task is stopped and Paused in memory, the record (and with it the API and the gauges) still
+		// says what it said before.
+		if t := c11FaultedWrite; op.Kind == "restart" && t != "" && mem[t] == "Paused" && persisted[t] != "Paused" && persisted[t] != "" {
+			m2 := map[string]string{}
+			for k, v := range mem {
+				m2[k] = v
+			}
+			m2[t] = persisted[t]
+			if f(m2) == f(persisted) && f(apiStates) == f(persisted) && f(gauge) == f(persisted) {
+				return fmt.Sprintf("state-disagree/internal-pause-not-persisted: %s: the write that records the pause of %s was rejected: persisted {%s} memory {%s} api {%s} gauges {%s}", where, t, f(persisted), f(mem), f(apiStates), f(gauge))
+			}
+		}
 		return fmt.Sprintf("state-disagree: %s: reference {%s} persisted {%s} memory {%s} api {%s} gauges {%s}", where, want, f(persisted), f(mem), f(apiStates), f(gauge))
 	}
 	// per-target resources
@@ -466,8 +489,11 @@ func c11Ops(maxFault int) []c11Op {
 			ops = append(ops, c11Op{Kind: k, Task: 0, Fault: f})
 		}
 	}
-	// (a store fault *during* a restart is not in the quantifier: faults are injected at API calls, restarts
-	// happen at quiescent points)
+	// a restart at a quiescent point whose reload meets a store failure at its n-th call (n = 1 is the task listing: the
+	// process gives up and is started again)
+	for f := 1; f <= maxFault+2; f++ {
+		ops = append(ops, c11Op{Kind: "restart", Fault: f})
+	}
 	return ops
 }
 
